@@ -73,7 +73,8 @@ def std_copies_identical():
 
 
 def ensure_driver():
-    if not os.path.exists(DRIVER):
+    src = os.path.join(VERIF, "driver", "src", "main.rs")
+    if not os.path.exists(DRIVER) or os.path.getmtime(DRIVER) < os.path.getmtime(src):
         build_driver()
 
 
